@@ -1,4 +1,4 @@
 SPECIFICATION Spec
-CONSTANTS N = 3  E = 2  Labels = {1, 3, 4, 5, 6}  IL = 1
+CONSTANTS N = 3  E = 2  Labels = {1, 3, 4, 5, 6}  IL = 1  CK = 3  CLabels = {1, 3, 4, 6}  CMaxN = 5
 INVARIANTS LayeredTheorem NumberingTheorem
 CHECK_DEADLOCK FALSE
